@@ -143,7 +143,7 @@ def mk_linkwire():
 
 def targets(tier):
     if tier == "quick":
-        return [mk_phytx(354), mk_ski(354), mk_phytx(6), mk_ski(10), mk_linkwire()]
+        return [mk_phytx(354), mk_ski(354), mk_phytx(6), mk_linkwire()]
     return [mk_phytx(354), mk_ski(354), mk_phytx(6), mk_phytx(10), mk_ski(10), mk_ski(6), mk_ski(7), mk_linkwire()]
 
 
@@ -348,7 +348,54 @@ def tie_theorem_names(targets, tier):
             if not (t.params["kind"] == "phytx" and t.params["L"] == 354)]
 
 
-ASSUMPTIONS = []
-LEVEL_TEXT = "work in progress"
-LEVEL_NOTE = ""
-TECHNIQUE = ""
+ASSUMPTIONS = [
+    "environment of the stream/schedule theorems: tx_electrical_idle = 0 (the PHY accepts a word every cycle, as wired in "
+    "physical/layer.py), enable_scrambling constant, and can_send_skp only together with the idle filler word 00000000/0000 "
+    "(proved for the link-layer wiring by ob_linkwire); the refinement theorems (A),(B) and statements (C),(D) need none of these",
+    "'idle time permits' = the SKP debt floor(symbols/354) - (SKP ordered sets sent) never reaches 2^3 = 8: skips_to_send is "
+    "Signal(range(5)), three bits, and wraps to 0 at 8 owed sets (708 consecutive busy words); stated as sched_safe / ssp_safe, "
+    "a decidable condition on the can_send_skp history alone; the models reproduce the wrap (widths are parameters)",
+    "sink.ready of CTCSkipInserter is a REGISTER (source.stream_eq(sink) sits in m.d.ss): it is 0 in the first cycle after reset "
+    "(the word of that cycle is transmitted without being handed over) and 1 afterwards, also during SKP cycles, so the idle word "
+    "of a SKP cycle is taken and replaced, and SKP cycles count as 4 transmitted symbols in the 354-symbol accounting",
+    "the link layer's stream = the word on physical_layer.sink in each cycle with sink.ready; the physical layer forces valid = 1, so "
+    "the one-cycle arbitration bubble of SuperSpeedStreamArbiter (can_send_skp = 0, sink.valid = 0) is transmitted like any other "
+    "word; it is never replaced by a SKP (ob_linkwire)",
+    "tie configurations: CTCSkipInserter at SKIP_BYTE_LIMIT 354 (real; quick) and additionally 6, 7, 10 (thorough); transmit path of the real "
+    "USB3PhysicalLayer (fake PIPE PHY, cone of influence of the transmit pins) at SKIP_BYTE_LIMIT 6 (quick) / 6, 10 (thorough) with the "
+    "LFSR window restriction, and at 354 by correspondence + specification monitor; USB3LinkLayer with its four stream producers "
+    "replaced by free inputs (cone of influence of physical_layer.sink/can_send_skp: arbiter + idle multiplexer)",
+    "SKIP_BYTE_LIMIT is a class attribute; small limits are set on the instance (no change to /repo)",
+]
+
+LEVEL_TEXT = (
+    "Machine-checked proof. Model theorems (all trace lengths; parametric in SKIP_BYTE_LIMIT L, counter widths, LFSR restart value; "
+    "CTCSkipInserter also in the word size B <= L): (A)/(B) the code-shaped models of CTCSkipInserter and of the transmit path "
+    "Scrambler(hold)->CTCSkipInserter->PHY (wrapping 9-bit remainder and 3-bit debt counters, registered sink.ready) are output-equal, on "
+    "EVERY input history on which the SKP debt stays below 2^ws, to a specification machine with unbounded accounting that inserts a SKP "
+    "word exactly when can_send_skp holds and floor(symbols/L) - 2*(SKP words sent) >= 2; (C) a SKP is inserted only in a cycle with "
+    "can_send_skp (no hypothesis); (D) with the PHY ready, every PHY word is the SKP word if a SKP was inserted in the previous cycle and "
+    "otherwise the previous link word xor the keystream of that cycle, and the keystream does not move over an inserted SKP; (E) under "
+    "the wiring 'can_send_skp only with idle filler', the PHY words following handed-over, non-replaced link words are exactly "
+    "Scrambler.scramble_words of those link words in order -- nothing but idle filler is replaced, nothing dropped, duplicated or "
+    "reordered, every real word keeps its keystream position; (F) closed-form schedule: hold(t) = can_send_skp(t) && "
+    "floor(4(t-1)/L) - 2*#SKP-words-before-t >= 2, sink.ready low in the first cycle only; (G) SKPs are never sent ahead of the debt. "
+    "Ties to /repo, re-proved on every run by certified product reachability: CTCSkipInserter netlist == model (real limit 354 and small "
+    "limits) giving netlist = specification machine; transmit path of the real USB3PhysicalLayer == path model at small limits giving "
+    "(C)-(F) for the netlist; USB3LinkLayer wiring: can_send_skp only with the idle filler on the sink and no producer valid or ready, "
+    "otherwise the sink carries the word of the one producer that sees ready. At the real limit the transmit path is tied by simulator "
+    "correspondence and by the specification evaluated as a monitor over simulator traces.")
+LEVEL_NOTE = (
+    "Trusted: Coq kernel + vm_compute, Amaranth elaboration, nir2coq.py/Netlist.v and the cone-of-influence slicer (validated each run "
+    "against Amaranth's simulator of the unsliced design). Netlist ties are theorems only over explicit word alphabets (idle filler, a "
+    "COM-first word, all-ones data, a mixed data/K word; all can_send_skp/valid/ready/electrical-idle patterns) and, for the transmit path, "
+    "only for histories in which at most 3 (quick) / 5 (thorough) words follow each COM-first word (the free-running 16-bit LFSR would "
+    "otherwise make the product infinite for practical purposes) and only at SKIP_BYTE_LIMIT 6/10; full-width data, long LFSR runs and "
+    "the real limit 354 on the transmit path are covered by correspondence and the specification monitor, not by proof. The LFSR equations "
+    "themselves are C31's affine proof. The composition link layer + physical layer is by hypothesis matching (tx_env's wiring clause = "
+    "ob_linkwire's conclusion), not a single netlist. Starvation (>= 8 owed ordered sets, i.e. 2832 symbols without idle) is outside the "
+    "theorems: the 3-bit counter wraps and 8 ordered sets are forgotten (models and code agree, see the thorough-tier starvation trace).")
+TECHNIQUE = ("Rocq proof: simulation relation code-shaped counters -> unbounded accounting (all L, B, widths), induction for stream/"
+             "schedule theorems on top of the C31 scrambler model; certified product-reachability (lock-step over explicit alphabets, "
+             "monitor for the link wiring) against netlists regenerated from source with cone-of-influence slicing; simulator "
+             "correspondence + specification monitor at the real configuration")
